@@ -430,6 +430,10 @@ def gen_enums(ctx):
         mk_enum(ctx, n, list(range(1, 2 ** n)), None, ["enums"])
     # conditional with more than 2^N variants (one cfg'd out)
     mk_enum(ctx, 1, [0, 1, 1], "conditional", ["enums"], cfgs=[None, "on", "off"])
+    # cfg alternatives sharing one discriminant, the later one being the active one
+    mk_enum(ctx, 1, [0, 1, 1], "conditional", ["enums"], cfgs=[None, "off", "on"])
+    mk_enum(ctx, 3, [5, 5, 0, 7, 7, 7], "conditional", ["enums"], cfgs=["off", "on", None, "off", "off", "on"])
+    mk_enum(ctx, 9, [300, 300, 1], "conditional", ["enums"], cfgs=["off", "on", None], docs=True)
     mk_enum(ctx, 2, [0, 1, 2, 3, 3], "conditional", ["enums"], cfgs=[None, None, None, "on", "off"])
     # hex / underscore literals
     mk_enum(ctx, 8, [16, 255, 1], "false", ["enums"], discr_texts=["0x10", "0xFF", "0b1"])
@@ -450,6 +454,10 @@ def gen_enums(ctx):
     mk_enum(ctx, 2, [0, 1], "false", inv, expect="invalid", rule="cfg variant without conditional", cfgs=[None, "on"])
     mk_enum(ctx, 2, [0, 1], None, inv, expect="invalid", rule="cfg variant without conditional", cfgs=["off", None])
     mk_enum(ctx, 2, [0, 1, 2, 3], "true", inv, expect="invalid", rule="cfg variant with exhaustive=true", cfgs=[None, None, None, "on"])
+    # a documented cfg-gated variant (the doc attribute comes before the cfg attribute)
+    mk_enum(ctx, 1, [0, 1], "true", inv, expect="invalid", rule="documented cfg variant with exhaustive=true", cfgs=[None, "off"], docs=True)
+    mk_enum(ctx, 2, [0, 1, 2, 3], "true", inv, expect="invalid", rule="documented cfg variant with exhaustive=true", cfgs=["on", None, None, "off"], docs=True)
+    mk_enum(ctx, 2, [0, 1], "false", inv, expect="invalid", rule="documented cfg variant with exhaustive=false", cfgs=[None, "off"], docs=True)
     mk_enum(ctx, 0, [0], "true", inv, expect="invalid", rule="size 0")
     mk_enum(ctx, 65, [0, 1], "false", inv, expect="invalid", rule="size 65")
     mk_enum(ctx, 128, [0, 1], "false", inv, expect="invalid", rule="size 128")
@@ -568,6 +576,22 @@ def gen_builder(ctx):
             a = mk_field("a", int_kind(3), 3, [(0, 2)], access="w")
             r = mk_field("r", int_kind(2), 2, [(1, 2)], access="r")
             mk_bf(ctx, N, [a, r], ["builder"], default={"syntax": "=", "form": "lit", "value": 0})
+    # long arrays through the builder (more than 8 elements)
+    for N in [b for b in bases if b >= 9]:
+        mk_bf(ctx, N, [mk_field("ba", "bool", 1, [(0, 0)], count=N)], ["builder", "builder-complete"])
+        if N >= 40:
+            mk_bf(ctx, N, [mk_field("na", "arb", 4, [(0, 3)], count=N // 4), mk_field("top", "bool", 1, [(N - 1, N - 1)], access="r")],
+                  ["builder"], default={"syntax": "=", "form": "lit", "value": 2 ** N - 1})
+    # list arrays whose stride is at least the element width but whose element span exceeds the stride
+    for N in [b for b in bases if b >= 16]:
+        so = mk_field("sp", "arb", 4, [(0, 1), (4, 5)], count=2, stride=4)
+        mk_bf(ctx, N, [so], ["builder", "builder-overlap", "self-overlap"], default={"syntax": "=", "form": "lit", "value": 0})
+        ok = mk_field("sq", "arb", 4, [(0, 1), (8, 9)], count=2, stride=4)
+        mk_bf(ctx, N, [ok], ["builder"], default={"syntax": "=", "form": "lit", "value": 0})
+    # declared (read-only) fields cover the base but the default's bits under them must survive
+    for N in [b for b in bases if b >= 8]:
+        fs = [mk_field("lvl", int_kind(N // 2), N // 2, [(0, N // 2 - 1)]), mk_field("rev", int_kind(N - N // 2), N - N // 2, [(N // 2, N - 1)], access="r")]
+        mk_bf(ctx, N, fs, ["builder"], default={"syntax": "=", "form": "lit", "value": (2 ** N - 1) ^ 0x5})
     # u128 base with a single 128-bit field
     mk_bf(ctx, 128, [mk_field("all", "native", 128, [(0, 127)])], ["builder", "builder-complete"])
     mk_bf(ctx, 128, [mk_field("all", "signed", 128, [(0, 127)])], ["builder", "builder-complete"])
@@ -594,6 +618,8 @@ def gen_access(ctx):
             fields.append(mk_field("n_%s" % (access or "n"), "native", 8, [(0, 7)], access=access))
             fields.append(mk_field("a_%s" % (access or "n"), "arb", 2, [(0, 1)], count=2, access=access))
             fields.append(mk_field("l_%s" % (access or "n"), "arb", 2, [(7, 7), (0, 0)], access=access))
+            fields.append(mk_field("s_%s" % (access or "n"), "arb", 2, [(0, 1)], count=2, stride=3, access=access))
+            fields.append(mk_field("ls_%s" % (access or "n"), "arb", 2, [(0, 0), (2, 2)], count=2, stride=4, access=access))
             fields.append(mk_field("e_%s" % (access or "n"), "enum", 2, [(2, 3)], custom=e["name"], access=access))
         mk_bf(ctx, N, fields, ["access"])
         # with a builder: only writable fields get steps
@@ -620,7 +646,9 @@ def gen_debug(ctx):
               mk_field("en", "enum", 2, [(2, 3)], custom=e_x["name"]),
               mk_field("opt", "optenum", 3, [(5, 7)], custom=e_o["name"]),
               mk_field("inner", "nested", 8, [(8, 15)], custom=inner["name"]),
-              mk_field("split", "arb", 4, [(N - 2, N - 1), (0, 1)])]
+              mk_field("split", "arb", 4, [(N - 2, N - 1), (0, 1)]),
+              mk_field("_rsv", "arb", 2, [(12, 13)], access="r"),
+              mk_field("r#type", "bool", 1, [(14, 14)])]
         mk_bf(ctx, N, fs, ["debug"], debug=True)
     mk_bf(ctx, 8, [], ["debug"], debug=True)   # no fields
     mk_bf(ctx, 8, [mk_field("only", "native", 8, [(0, 7)])], ["debug"], debug=True)
@@ -698,6 +726,16 @@ def gen_invalid(ctx):
             bad(N, mk_field("rev", "arb", 2, [(2, 1)]), "reversed range")
             bad(N, mk_field("revl", "arb", 3, [(0, 2), (3, 2)]), "reversed range in a list")
             bad(N, mk_field("revl2", "native", 8, [(N - 1, 2), (0, min(N - 1, 12))]), "reversed range compensated by a long one")
+        # a list whose out-of-base range is not the last one; descending lists that fit
+        if N >= 12:
+            bad(N, mk_field("lof", "native", 16, [(N - 4, N + 3), (0, 7)]), "first range of a list beyond the base")
+            bad(N, mk_field("lom", "native", 16, [(0, 3), (N - 2, N + 5), (4, 7)]), "middle range of a list beyond the base")
+            good(N, mk_field("ldf", "native", 8, [(N - 4, N - 1), (0, 3)]), "descending list that fits")
+        # stride 0 on a bool array / explicit stride below the width
+        if N >= 4:
+            bad(N, mk_field("bs0", "bool", 1, [(2, 2)], count=4, stride=0), "bool array with stride 0")
+            bad(N, mk_field("us0", "arb", 1, [(2, 2)], count=4, stride=0), "u1 array with stride 0")
+            good(N, mk_field("bs1", "bool", 1, [(0, 0)], count=4, stride=1), "bool array with stride 1")
         # arrays: count 0, 1, 2
         bad(N, mk_field("c0", "bool", 1, [(0, 0)], count=0), "array count 0")
         bad(N, mk_field("c1", "bool", 1, [(0, 0)], count=1), "array count 1")
